@@ -120,7 +120,7 @@ pub fn gen_mux(seed: u64, tier: Tier, focus: Focus, label: &str) -> MuxPlan {
             let allow_tr = if h2_backend { rng.below(4) == 0 } else { rng.below(12) == 0 };
             r.body = gen_body_plan(&mut rng, req_len, allow_tr);
             if rng.below(4) == 0 { r.cont_split = vec![1 + rng.below(30) as usize, rng.below(20) as usize]; }
-            if rng.below(6) == 0 && r.cont_split.is_empty() { r.headers_pad = Some(rng.below(100) as u8); }
+            if rng.below(6) == 0 && (r.cont_split.is_empty() || rng.below(5) == 0) { r.headers_pad = Some(rng.below(100) as u8); }
             if rng.below(5) == 0 { r.headers.push(("x-long".into(), "v".repeat(rng.below(3000) as usize))); }
             r.delay_ns = rng.below(2) * rng.below(3 * MS);
             h2_ops.push(ClientOp::Req(r));
@@ -201,7 +201,12 @@ pub fn trigger(p: &MuxPlan, id: u64) -> &'static str {
             }
         }
     }
-    sibling.unwrap_or("none")
+    if let Some(s) = sibling { return s; }
+    // an H2 request that ends with an empty DATA frame makes sozu issue a zero-length write toward the
+    // H1 backend; after a partial write that clears the backend's WRITABLE event for good, and the
+    // next stream that reuses the backend connection stalls (recorded finding)
+    if p.h2_clients.iter().any(|c| c.requests().iter().any(|r| r.body.len > 0 && r.body.end == EndMode::EmptyData)) { return "h2_request_ending_in_empty_data_to_h1_backend"; }
+    "none"
 }
 
 pub fn plan_trigger(p: &MuxPlan) -> &'static str {
@@ -225,7 +230,11 @@ pub fn body_oracle(p: &MuxPlan, o: &MuxOutcome) -> Vec<Violation> {
             v.push(Violation::new("wrong_answer", k(&format!("status={}", obs.status.unwrap_or(0))), format!("{who} request #{id}: got status {:?} sim_id={:?} body={:?}", obs.status, obs.sim_id, String::from_utf8_lossy(&obs.body_head[..obs.body_head.len().min(80)]))));
         } else {
             if obs.status != Some(resp_status) { v.push(Violation::new("wrong_answer", k("status_changed"), format!("request #{id}: status {:?} != {resp_status}", obs.status))); }
-            if let Some(off) = obs.first_bad { v.push(Violation::new("body_mismatch", k("corrupted"), format!("{who} request #{id}: response body differs at offset {off} (received {})", obs.body_len))); }
+            if let Some(off) = obs.first_bad {
+                let keys: Vec<u64> = (1..=12u64).flat_map(|i| [i * 2, i * 2 + 1]).collect();
+                let origin = crate::actors::locate_bytes(&obs.bad_bytes, &keys, 1_600_000);
+                v.push(Violation::new("body_mismatch", k("corrupted"), format!("{who} request #{id}: response body differs at offset {off} (received {}); the bytes found there ({:02x?}) belong to (body key, offset) = {origin:?} (response key of request n is 2n+1)", obs.body_len, obs.bad_bytes)));
+            }
             else if obs.body_len != resp_len { v.push(Violation::new("body_mismatch", k(if obs.body_len < resp_len { "truncated" } else { "duplicated" }), format!("{who} request #{id}: response body {} bytes, backend sent {resp_len}; aborted={:?}", obs.body_len, obs.aborted))); }
             if !obs.complete { v.push(Violation::new("missing_terminator", k("response"), format!("request #{id}: response not terminated (aborted={:?})", obs.aborted))); }
             if obs.t_sent > 0 && obs.t_end > obs.t_sent + 10 * SEC { v.push(Violation::new("transfer_starved", k("response"), format!("request #{id}: completed {} ms after the request was sent", (obs.t_end - obs.t_sent) / MS))); }
@@ -382,7 +391,7 @@ pub fn mux_probes(o: &MuxOutcome, rep: &mut RunReport) {
 
 impl Property for C14 {
     fn id(&self) -> &'static str { "C14" }
-    fn runs(&self, tier: Tier) -> u64 { match tier { Tier::Quick => 2500, Tier::Thorough => 60000 } }
+    fn runs(&self, tier: Tier) -> u64 { match tier { Tier::Quick => 8000, Tier::Thorough => 150000 } }
     fn gen_plan(&self, seed: u64, tier: Tier) -> Value { serde_json::to_value(gen_mux(seed, tier, Focus::Limits, "c14")).unwrap() }
     fn run_plan(&self, plan: &Value) -> RunReport {
         let p: MuxPlan = match serde_json::from_value(plan.clone()) { Ok(p) => p, Err(e) => return RunReport { harness_error: Some(format!("bad plan: {e}")), ..Default::default() } };
